@@ -476,13 +476,38 @@ func (m *syncModel) collectAccesses() {
 								case "delete", "clear":
 									add(fn, y, name, true, "map "+b.Name())
 								case "len":
-									add(fn, y, name, false, "len")
+									if isMap { // len of a slice header already loaded touches no shared memory
+										add(fn, y, name, false, "len")
+									}
 								case "append":
 									add(fn, y, name, false, "append (read)")
 								}
 							}
 						case *ssa.IndexAddr:
-							add(fn, y, name, false, "element access")
+							wr := false
+							if y.Referrers() != nil {
+								for _, rr := range *y.Referrers() {
+									if st, isSt := rr.(*ssa.Store); isSt && st.Addr == ssa.Value(y) {
+										wr = true
+									}
+								}
+							}
+							if wr {
+								add(fn, y, name, true, "element store")
+							} else {
+								add(fn, y, name, false, "element access")
+							}
+						case *ssa.Slice:
+							// append(s[:i], ...) writes the elements behind i in place
+							if y.Referrers() != nil {
+								for _, rr := range *y.Referrers() {
+									if call, isC := rr.(*ssa.Call); isC {
+										if b, isB := call.Common().Value.(*ssa.Builtin); isB && b.Name() == "append" && len(call.Common().Args) > 0 && call.Common().Args[0] == ssa.Value(y) && y.High != nil {
+											add(fn, call, name, true, "element store")
+										}
+									}
+								}
+							}
 						}
 					}
 				}
@@ -604,6 +629,12 @@ func runC14(c *Ctx) {
 			for j, x := range accs {
 				if j < i && x.Write {
 					continue // unordered pairs of writes once
+				}
+				if w.What == "store" && x.What == "element access" {
+					// the element is read through a slice header loaded before (under whatever lock that
+					// load held, judged as its own pair); replacing the header does not touch the old
+					// backing array's elements below its length — writes to elements are "element store"
+					continue
 				}
 				xr := rootsOfFn(x.Fn)
 				conc := false
